@@ -53,7 +53,8 @@ class Shape:
                 out.extend(self._expr(st.test))
                 a = self._block(st.body)
                 rest = self._block(stmts[idx + 1:])
-                if a == rest:
+                if a == rest or (not rest and self._ends_in_raise(stmts[idx + 1:])):
+                    # the other outcome writes the same, or rejects the value: no alternative
                     out.extend(a)
                 else:
                     out.append(("alt", tuple(a), tuple(rest)))
@@ -95,12 +96,9 @@ class Shape:
                         raise ShapeError("stream operation inside an exception handler")
             return body + self._block(st.orelse) + self._block(st.finalbody)
         if isinstance(st, ast.For):
-            head = self._expr(st.iter)
-            if head:
-                raise ShapeError("stream operation in a loop header")
-            kind, over = self._loop_kind(st)
+            pre, kind, over = self._loop_head(st.iter, st.target)
             body = self._block(st.body)
-            return [("loop", kind, over, tuple(body))]
+            return pre + [("loop", kind, over, tuple(body))]
         if isinstance(st, (ast.Assign, ast.AnnAssign)):
             val = st.value
             if val is None:
@@ -134,6 +132,22 @@ class Shape:
             for i, e in enumerate(tg.elts):
                 if isinstance(e, ast.Name):
                     self.typevars[e.id] = ("sub", i, len(tg.elts))
+
+    def _loop_head(self, it: ast.AST, target: ast.AST) -> Tuple[List[Event], str, str]:
+        """events of the loop header, loop kind, what is iterated.  ``range(<count read here>)``
+        is the same as a count read into a variable just before the loop."""
+        if isinstance(it, ast.Call) and attr_path(it.func) == ("range",) and len(it.args) == 1 \
+                and self._is_decode_of(it.args[0], "Uint64Codec") and self.direction == "decode":
+            ev = self._expr(it.args[0])
+            if ev == [("sub", "Uint64Codec")]:
+                tag = "@%d:%d" % (it.lineno, it.col_offset)
+                return [("u64var", tag)], "counted", "range:" + tag
+        head = self._expr(it)
+        if head:
+            raise ShapeError("stream operation in a loop header")
+        fake = ast.For(target=target, iter=it, body=[], orelse=[])
+        kind, over = self._loop_kind(fake)
+        return [], kind, over
 
     def _loop_kind(self, st: ast.For) -> Tuple[str, str]:
         it = st.iter
@@ -183,6 +197,23 @@ class Shape:
         return out
 
     def _post(self, e: ast.AST, out: List[Event]) -> None:
+        if isinstance(e, (ast.GeneratorExp, ast.ListComp, ast.SetComp, ast.DictComp)) and len(e.generators) == 1 \
+                and not e.generators[0].is_async:
+            # a comprehension is the loop it abbreviates
+            g = e.generators[0]
+            pre, kind, over = self._loop_head(g.iter, g.target)
+            body: List[Event] = []
+            for cond in g.ifs:
+                self._post(cond, body)
+            if isinstance(e, ast.DictComp):
+                self._post(e.key, body)
+                self._post(e.value, body)
+            else:
+                self._post(e.elt, body)
+            if body or pre:
+                out.extend(pre)
+                out.append(("loop", kind, over, tuple(body)))
+            return
         if isinstance(e, (ast.Lambda, ast.GeneratorExp, ast.ListComp, ast.SetComp, ast.DictComp)):
             inner: List[Event] = []
             for ch in ast.iter_child_nodes(e):
@@ -246,6 +277,12 @@ class Shape:
         # wrappers around raw.read(n)
         rd = self._find_read(c)
         if rd is not None:
+            if rd.args and self._is_decode_of(rd.args[0], "Uint64Codec") and self.direction == "decode" \
+                    and self._expr(rd.args[0]) == [("sub", "Uint64Codec")]:
+                # raw.read(Uint64Codec.decode(raw)): the count is read where it is used
+                tag = "@%d:%d" % (rd.lineno, rd.col_offset)
+                ev = self._read_event(c, rd)
+                return [("u64var", tag), (ev[0], "var:" + tag) + tuple(ev[2:])]
             return [self._read_event(c, rd)]
         return None
 
